@@ -60,7 +60,11 @@ fn mode_include(j: &J, id: &str) -> String {
     Ok(Err(e)) => format!("(err {} {})", qstr(&e.kind_name()), qstr(&e.display_message())),
     Err(_) => "(panic)".to_string(),
   };
-  if let Some(b) = made { let _ = std::fs::remove_dir_all(&b); }
+  if let Some(b) = made {
+    let _ = std::fs::remove_dir_all(&b);
+    // a default scratch directory (no MVH20_SCRATCH) is removed again once it is empty
+    if std::env::var("MVH20_SCRATCH").map(|s| s.is_empty()).unwrap_or(true) { if let Some(p) = b.parent() { let _ = std::fs::remove_dir(p); } }
+  }
   out
 }
 
